@@ -198,6 +198,14 @@ Theorem C08_flag_nobody_parked_on_a_true_side :
 Proof. exact FlagList.never_parked_on_a_side_that_holds. Qed.
 Print Assumptions C08_flag_nobody_parked_on_a_true_side.
 
+(** ... and nobody is lost: every subscriber of a history is still parked on one of the two lists, or has been scheduled, or
+    withdrew itself - whatever the interleaving of subscriptions, withdrawals and edges *)
+Theorem C08_flag_waiters_are_never_lost :
+  forall ops p, In p (FlagList.subs_of ops) ->
+    FlagList.accounted (FlagList.run ops) p \/ In p (FlagList.unsubs_of ops).
+Proof. exact FlagList.nobody_is_lost. Qed.
+Print Assumptions C08_flag_waiters_are_never_lost.
+
 Theorem C08_flag_rising_edge_wakes_all_waiters :
   forall ops, FlagList.value (FlagList.run ops) = false ->
     let s := FlagList.run (ops ++ [FlagList.SetTo true]) in
